@@ -646,7 +646,7 @@ def solve(em, db, width):
 
     else:
         var_to_elim = exact_var(db, width)
-        if var_to_elim:
+        if var_to_elim is not None:
             is_exact = True
             # print('exact elim %d' % var_to_elim)
         else:
@@ -717,7 +717,18 @@ def solve_matrix(matrix, mode=EXACT):
     fs = [Factoid(f) if isinstance(f, collections.abc.Iterable) else f for f in matrix]
     db = dict()
     for ft in fs:
-        insert_db(db, dfactoid(ft, ASM(ft)))
+        df = dfactoid(ft, ASM(ft))
+        # Normalise the input factoids the way derived factoids are: divide by
+        # the gcd of the variable coefficients (the analysis of one-variable
+        # problems relies on unit coefficients), and decide constant factoids.
+        g = functools.reduce(gcd, ft[:-1], 0)
+        if g > 1:
+            df = dfactoid(Factoid([c // g for c in ft]), GCDCheck(df.deriv))
+        if df.factoid.is_true_factoid():
+            continue
+        elif df.factoid.is_false_factoid():
+            return "UNSAT", Contr(df.deriv)
+        insert_db(db, df)
     r = solve(EXACT, db, len(matrix[0]))
     if isinstance(r, Satisfiable):
         return "SAT", r.store
